@@ -392,6 +392,10 @@ CATALOGUE = [
     *[(f'aiohttp-{s}', _x('aiohttp.ClientResponseError', status=s), 'retry') for s in (408, 429, 500, 502, 503, 504)],
     *[(f'httpx-{s}', _x('hailtop.httpx.ClientResponseError', status=s), 'retry') for s in (408, 429, 500, 502, 503, 504)],
     ('httpx-403-rateLimitExceeded', _x('hailtop.httpx.ClientResponseError', status=403, body='{"reason": "rateLimitExceeded"}'), 'retry'),
+    # only the exact Google reason string marks a 403 as a rate-limit answer: look-alikes are ordinary (permanent) 403s
+    *[(f'httpx-403-lookalike-{i}', _x('hailtop.httpx.ClientResponseError', status=403, body=b), 'permanent')
+      for i, b in enumerate(['{"reason": "userRateLimitExceeded"}', '{"reason": "ratelimitexceeded"}', '{"reason": "RATELIMITEXCEEDED"}',
+                             '{"reason": "rate limit exceeded"}', '{"reason": "quotaExceeded"}'])],
     ('server-timeout', _x('aiohttp.ServerTimeoutError'), 'retry'),
     ('server-disconnected', _x('aiohttp.ServerDisconnectedError'), 'retry'),
     ('asyncio-timeout', _x('asyncio.TimeoutError'), 'retry'),
